@@ -44,7 +44,8 @@ PROBES = ["invivo_pipeline_reads_checked", "invivo_restored_items_checked", "inv
           "restart_clean", "restart_unclean", "multi_bundle", "item_cache_evicted", "bundle_cache_evicted",
           "absent_read", "fault_write_enospc", "fault_write_torn", "fault_read_eio", "fault_reported",
           "read_after_fault_ok", "restart_after_fault", "dict_restore", "xprocess_restart", "numpy_integer_key", "two_failed_writes_in_one_op",
-          "invivo_history_run_ok", "invivo_history_ws_plain", "invivo_history_ws_symlink", "invivo_history_ws_symlink_parent", "invivo_history_ws_symlink_sub"]
+          "invivo_history_run_ok", "invivo_history_ws_plain", "invivo_history_ws_symlink", "invivo_history_ws_symlink_parent", "invivo_history_ws_symlink_sub",
+          "failed_save", "failed_resave_of_active_item"]
 # the same check again, smaller, in interpreters started with assertions stripped (python -O / PYTHONOPTIMIZE=1)
 ENV_VARIANTS = [{"name": "python-O", "env": {"PYTHONOPTIMIZE": "1"}, "runs": {'quick': 900, 'thorough': 9000}}]
 TIERS = {
@@ -149,6 +150,10 @@ def generate(rng, k):
             if i not in saved:
                 saved.append(i)
             last_id = i
+            if rng.random() < 0.05:
+                # ... followed by a save of the same id that FAILS (content the loader cannot flatten); the caller carries on
+                ops.append(op)
+                op = {"op": "save_bad", "id": i, "poison": rng.choice(["object", "numpy_in_rows", "none"])}
         elif kind == "get":
             r = rng.random()
             if r < 0.5 and last_id is not None:
@@ -365,6 +370,11 @@ def execute_dict(trace):
     return {"violation": violation, "probes": probes, "faults": faults_out(probes), "states": set(), "trans": set(),
             "steps": len(trace["ops"]), "log": digest_hex([log, violation]),
             "extra": {f"family:{fam.name}": 1, "feather_writes": diskseam.STATE["total_writes"], "feather_reads": diskseam.STATE["total_reads"]}}
+
+
+class _Unflattenable:
+    """content no loader can flatten: no fields, no length, not iterable"""
+    __slots__ = ()
 
 
 def M_tokens_missing(ref, snap):
@@ -637,6 +647,22 @@ def execute(trace):
                     violation = v
                     break
                 log.append(["save", i, nw])
+            elif kind == "save_bad":
+                i = op["id"] % len(keys)
+                key = keys[i]
+                bad = {"object": _Unflattenable(), "none": None}.get(op.get("poison"), _Unflattenable())
+                _, out, err = sut(lambda: fam.save(loader, key, bad))
+                fired, nw, nr, arrow_err = diskseam.end_op()
+                if err is None:
+                    # the loader took the content (a family whose flatten accepts anything): nothing the model can say about
+                    # this item from here on, the run ends
+                    hit("bad_content_accepted")
+                    break
+                # a save that raised is no save: the model is unchanged, what was saved before is still what reads return
+                hit("failed_save")
+                if i in M["active"]:
+                    hit("failed_resave_of_active_item")
+                log.append(["save_bad", i, type(err).__name__])
             elif kind in ("get", "contain"):
                 i = op["id"] % len(keys)
                 key = npkey(keys[i]) if op.get("npkey") else keys[i]
